@@ -3,6 +3,7 @@
 set -e
 command -v java >/dev/null
 test -f /opt/veriftools/tla/tla2tools.jar
+command -v apalache-mc >/dev/null
 /venv/bin/python -c "import sys; sys.path.insert(0, '/repo'); import botocore, s3transfer"
 mkdir -p /verif/evidence /verif/replays
 echo "setup ok"
